@@ -18,7 +18,7 @@ import (
 const shimBase = "verif/shim/"
 
 type stats struct {
-	Files, SyncImports, GoStmts, Recvs, Sends, Sleeps, Selects, Closes int
+	Files, SyncImports, GoStmts, Recvs, Sends, Sleeps, Selects, Closes, TryLocks int
 	Unmodelled                                                        []string
 }
 
@@ -66,6 +66,9 @@ func main() {
 			srcPath = b
 		}
 		src, _ := os.ReadFile(srcPath)
+		// a TryLock observes a held lock without blocking: sched.sh then builds the shim with a scheduling
+		// point before every unlock as well (tag vtrylock), which the blocking-only reduction does not need
+		st.TryLocks += bytes.Count(src, []byte(".TryLock(")) + bytes.Count(src, []byte(".TryRLock("))
 		res, changed, err := rewrite(p, src)
 		if err != nil {
 			fmt.Fprintln(os.Stderr, "parse error", p, err)
